@@ -114,7 +114,25 @@ def cases(draw, shallow_prob=None):
             [o for o in ops if not (o[0] == "install" and o[1] in (0, i))][:6]
         if ops[-1][0] != "run":
             ops.append(["run", []])
-    return {"n": n, "init": init, "files": [draw(st.integers(0, 9)), draw(st.integers(0, 9))], "arg": draw(st.integers(0, 5)), "ops": ops}
+    arg = draw(st.integers(0, 5))
+    if draw(st.integers(0, 3)) == 0 and n >= 4:
+        # catch focus: the caught call SUCCEEDS in the first run and is then edited so that it
+        # raises (the other direction, recover first, is the open catch finding)
+        arg = draw(st.integers(1, 5))
+        m_ok = draw(st.sampled_from([m for m in (2, 3, 4, 7) if arg % m != 0]))
+        m_bad = draw(st.sampled_from([m for m in (1, 2, 3, 4, 5) if arg % m == 0]))
+        keep0 = {k: v for k, v in init[0].items() if k in ("ver",)}
+        init[0] = {**keep0, "k": "catch", "callee": 1, "add": draw(st.integers(0, 3))}
+        keep1 = {k: v for k, v in init[1].items() if k in ("ver",)}
+        init[1] = {**keep1, "k": "raise_if", "mod": m_ok, "add": draw(st.integers(0, 3))}
+        bad = {**keep1, "k": "raise_if", "mod": m_bad, "add": init[1]["add"]}
+        if "ver" in bad:
+            bad["ver"] = bad["ver"] + "b"
+        tail = [o for o in ops if not (o[0] in ("install",) and o[1] in (0, 1)) and o[0] != "arg"][:4]
+        ops = [["run", []], ["install", 1, bad], ["run", draw(st.lists(st.integers(0, 3), max_size=6))]] + tail
+        if ops[-1][0] != "run":
+            ops.append(["run", []])
+    return {"n": n, "init": init, "files": [draw(st.integers(0, 9)), draw(st.integers(0, 9))], "arg": arg, "ops": ops}
 
 
 def write_file(path, content, mtime_step):
@@ -180,7 +198,10 @@ def run_history(ctx: Ctx, case, dryrun_hook=None, compare=True):
                     for v in fam.variants:
                         if v["k"] == "catch":
                             under_catch |= fam.uses(v["callee"])
-                    if edited & under_catch:
+                    # the open finding is a stale *recovery value* (the cached recover expression is
+                    # replayed): the shared backend then returns a value. A shared-backend *error*
+                    # where a fresh backend recovers is something else and is never masked.
+                    if edited & under_catch and a[0] == "ok":
                         raise Violation("catch-recovery-replayed:subtree-edit", f"run {info['runs']} (arg {arg}): shared backend gave {a}, "
                                         f"a fresh backend gives {b}: a task beneath a catch() was changed after the catch had "
                                         f"recovered once; the cached recover expression is replayed without re-evaluating the "
